@@ -55,10 +55,12 @@ def run(tier, replay=None):
             ("Patch", f"Patch_rt1_{tier}.cfg", dict(workers=2, coverage=False, timeout=3000)),
             ("Patch", f"Patch_rt2_{tier}.cfg", dict(workers=2, coverage=False, timeout=3000)),
             ("Patch", "Patch_sens.cfg", dict(workers=1, coverage=False, expect="violation", expect_violated=("SabotageAccepted",)))]
+    if tier == "quick":
+        del jobs[1]          # the append strategy of the reference diff is model-checked in the thorough tier only
     res = c.models(jobs)
-    if res[3].status != "invariant":
+    if res[-1].status != "invariant":
         raise MachineryError("the oracle accepted every sabotaged operation list (Patch_sens): applier is not sensitive")
-    c.extra["design_counterexample_sabotaged_index"] = res[3].violated
+    c.extra["design_counterexample_sabotaged_index"] = res[-1].violated
     pairs = vlib.tlc_printed_json(res[0], "GEN")
     if len(pairs) != res[0].distinct or not pairs:
         raise MachineryError(f"generator printed {len(pairs)} pairs for {res[0].distinct} states")
@@ -70,7 +72,7 @@ def run(tier, replay=None):
     c.extra["generated_pairs"] = len(pairs)
 
     drive = vlib.build_harness(cmd="c11")
-    nseed, nlive = (300, 2) if tier == "quick" else (6000, 10)
+    nseed, nlive = (300, 2) if tier == "quick" else (10000, 12)
     runs = [("gen", ["-mode", "gen", "-gen", genf]), ("seed", ["-mode", "seed", "-n", nseed]), ("live", ["-mode", "live", "-live", nlive])]
 
     def drive_one(r):
@@ -99,9 +101,22 @@ def run(tier, replay=None):
     missing = [k for k in OP_KINDS if not kinds.get(k)]
     if missing:
         raise MachineryError(f"vacuity: operation kinds never produced by the real code: {missing}")
-    for code in ("200", "410", "425"):
-        if not stats["live"]["by_status"].get(code):
-            raise MachineryError(f"vacuity: no live patch request answered {code}")
+    # ... and the live scenarios contain instants for which the oracle demands a patch, 410, and (same publishTime) 425
+    demanded = {"200": 0, "410": 0, "425": 0}
+    for name, trace, st in driven:
+        if name != "live":
+            continue
+        for e in vlib.read_ndjson(trace):
+            lim, far = e["ttl"] * 1000, (e["ttl"] + e["margin"]) * 1000
+            if e["dpt"] == 0:
+                demanded["425"] += 1
+            elif e["dt"] <= lim and e["dpt"] <= lim:
+                demanded["200"] += 1
+            elif e["dt"] > far and e["dpt"] > far:
+                demanded["410"] += 1
+    c.extra["live_scenarios_by_demanded_status"] = demanded
+    if not all(demanded.values()):
+        raise MachineryError(f"vacuity: live scenarios do not cover every status class: {demanded}")
 
     def validate(p):
         r, lines = c.validate_trace("Patch_Trace", p, timeout=3000, heap="6g")
